@@ -1,6 +1,6 @@
 from __future__ import annotations
 
-from copy import deepcopy
+from copy import copy, deepcopy
 from dataclasses import dataclass
 import sys
 
@@ -97,7 +97,10 @@ class StructuredGrammaticalEvolutionRepresentation(
 
     def genotype_to_phenotype(self, genotype: Genotype) -> TreeNode:
         rand: RandomSource = StructuredListWrapper(genotype.dna)
-        return random_node(rand, self.grammar, self.grammar.starting_symbol, self.decider)
+        # every decision of the mapping, including the decider's, is read from the genotype
+        decider = copy(self.decider)
+        decider.random = rand  # type: ignore
+        return random_node(rand, self.grammar, self.grammar.starting_symbol, decider)
 
     def mutate(self, random: RandomSource, genotype: Genotype, **kwargs) -> Genotype:
         rkey = random.choice(list(genotype.dna.keys()))
